@@ -20,6 +20,9 @@ Definition wrap (x : N) : N := x mod 4294967296.
 (* x - 1 on uint32 *)
 Definition dec32 (x : N) : N := if x =? 0 then 4294967295 else x - 1.
 
+(* Go's wrap-aware ticket order (runtime/sema.go less): a is before b, i.e. int32(a-b) < 0 *)
+Definition less32 (a b : N) : bool := 2147483648 <=? wrap (a + 4294967296 - b).
+
 Fixpoint upd {A} (l : list A) (i : nat) (x : A) : list A :=
   match l, i with
   | [], _ => []
@@ -107,7 +110,7 @@ Definition s_exec (s : sstate) (t : nat) (choice : nat) (th : sthread) (o : sop)
       if s_val s =? s_lv th then
         mkSSt (dec32 (s_lv th)) (s_waiters s) None (s_waitq s) (upd (s_ths s) t (sfin th rest))
               (s_acq s + 1) (s_rel s) (s_wraps s)
-      else s_park s t th
+      else s_set s t (sgoto th QA2 0)    (* lost the race: continue, re-read the count *)
   | SAcq, QW =>     (* woken: re-lock, waiters-- *)
       mkSSt (s_val s) (dec32 (s_waiters s)) (Some t) (s_waitq s) (upd (s_ths s) t (sgoto th QA2 0))
             (s_acq s) (s_rel s) (s_wraps s)
@@ -199,11 +202,12 @@ Inductive npc :=
 | MA1       (* NAll: holding st.mu, at Load(wait).  NOne: at Load(notify) *)
 | MA2       (* NAll: at Store(notify).              NOne: at Load(wait) *)
 | MA3       (* NAll: at Broadcast.                  NOne: at Add(notify) *)
-| MA4.      (* NOne: at Signal *)
+| MA4.      (* NOne: at Broadcast *)
 
 Record nthread := mkNTh {
   nprog : list nop; n_pc : npc; n_ticket : N; n_l1 : N; n_l2 : N;
-  n_done : nat; n_tickets : list N }.
+  n_done : nat; n_tickets : list N;
+  n_rets : list (N * N)   (* ghost: (ticket, l.notify) at the return of each completed notifyListWait *) }.
 
 Record nstate := mkNSt {
   n_wait : N; n_notify : N; n_mu : option nat; n_waitq : list nat;
@@ -212,11 +216,13 @@ Record nstate := mkNSt {
 }.
 
 Definition nfin (th : nthread) (rest : list nop) : nthread :=
-  mkNTh rest MStart 0 0 0 (S (n_done th)) (n_tickets th).
+  mkNTh rest MStart 0 0 0 (S (n_done th)) (n_tickets th) (n_rets th).
+Definition nfin_wait (th : nthread) (rest : list nop) (notify : N) : nthread :=
+  mkNTh rest MStart 0 0 0 (S (n_done th)) (n_tickets th) (n_rets th ++ [(n_ticket th, notify)]).
 Definition ngoto (th : nthread) (p : npc) : nthread :=
-  mkNTh (nprog th) p (n_ticket th) (n_l1 th) (n_l2 th) (n_done th) (n_tickets th).
+  mkNTh (nprog th) p (n_ticket th) (n_l1 th) (n_l2 th) (n_done th) (n_tickets th) (n_rets th).
 Definition nloc (th : nthread) (p : npc) (a b : N) : nthread :=
-  mkNTh (nprog th) p (n_ticket th) a b (n_done th) (n_tickets th).
+  mkNTh (nprog th) p (n_ticket th) a b (n_done th) (n_tickets th) (n_rets th).
 
 Definition n_parked (s : nstate) (t : nat) : bool := mem_nat t (n_waitq s).
 
@@ -235,15 +241,15 @@ Definition n_exec (s : nstate) (t : nat) (choice : nat) (th : nthread) (o : nop)
   (* t := AddUint32(&l.wait, 1) - 1 *)
   | NWait, MStart =>
       mkNSt (wrap (n_wait s + 1)) (n_notify s) (n_mu s) (n_waitq s)
-            (upd (n_ths s) t (mkNTh (nprog th) MG (n_wait s) 0 0 (n_done th) (n_tickets th ++ [n_wait s])))
+            (upd (n_ths s) t (mkNTh (nprog th) MG (n_wait s) 0 0 (n_done th) (n_tickets th ++ [n_wait s]) (n_rets th)))
             (n_wrapped s || (n_wait s + 1 =? 4294967296))
   | NWait, MG => n_set s t (ngoto th ML) (n_mu s)
   | NWait, ML => n_set s t (ngoto th MC) (Some t)
-  (* for Load(notify) == t { Wait } *)
+  (* for int32(t - Load(notify)) >= 0 { Wait }: wait while the ticket is not below notify *)
   | NWait, MC =>
-      if n_notify s =? n_ticket th then
+      if negb (less32 (n_ticket th) (n_notify s)) then
         mkNSt (n_wait s) (n_notify s) None (n_waitq s ++ [t]) (upd (n_ths s) t (ngoto th MW)) (n_wrapped s)
-      else n_set s t (nfin th rest) None
+      else n_set s t (nfin_wait th rest (n_notify s)) None
   | NWait, MW => n_set s t (ngoto th MC) (Some t)
   (* NotifyAll: Store(&l.notify, Load(&l.wait)); Broadcast *)
   | NAll, MStart => n_set s t (ngoto th ML) (n_mu s)
@@ -253,7 +259,7 @@ Definition n_exec (s : nstate) (t : nat) (choice : nat) (th : nthread) (o : nop)
       mkNSt (n_wait s) (n_l1 th) (n_mu s) (n_waitq s) (upd (n_ths s) t (ngoto th MA3)) (n_wrapped s)
   | NAll, MA3 =>
       mkNSt (n_wait s) (n_notify s) None [] (upd (n_ths s) t (nfin th rest)) (n_wrapped s)
-  (* NotifyOne: if Load(notify) != Load(wait) { Add(notify, 1); Signal } *)
+  (* NotifyOne: if Load(notify) != Load(wait) { Add(notify, 1); Broadcast } *)
   | NOne, MStart => n_set s t (ngoto th ML) (n_mu s)
   | NOne, ML => n_set s t (ngoto th MA1) (Some t)
   | NOne, MA1 => n_set s t (nloc th MA2 (n_notify s) 0) (n_mu s)
@@ -264,12 +270,7 @@ Definition n_exec (s : nstate) (t : nat) (choice : nat) (th : nthread) (o : nop)
       mkNSt (n_wait s) (wrap (n_notify s + 1)) (n_mu s) (n_waitq s) (upd (n_ths s) t (ngoto th MA4))
             (n_wrapped s || (n_notify s + 1 =? 4294967296))
   | NOne, MA4 =>
-      let q := n_waitq s in
-      let q' := match q with
-                | [] => []
-                | _ => remove_nat (nth (choice mod length q) q O) q
-                end in
-      mkNSt (n_wait s) (n_notify s) None q' (upd (n_ths s) t (nfin th rest)) (n_wrapped s)
+      mkNSt (n_wait s) (n_notify s) None [] (upd (n_ths s) t (nfin th rest)) (n_wrapped s)
   | _, _ => s
   end.
 
@@ -296,7 +297,7 @@ Fixpoint n_run (sc : sschedule) (s : nstate) : nstate :=
 
 (* v0: initial value of both counters (0 for a fresh sync.Cond) *)
 Definition n_init (v0 : N) (progs : list (list nop)) : nstate :=
-  mkNSt v0 v0 None [] (map (fun p => mkNTh p MStart 0 0 0 0 []) progs) false.
+  mkNSt v0 v0 None [] (map (fun p => mkNTh p MStart 0 0 0 0 [] []) progs) false.
 
 Definition n_obs1 (s : nstate) : N * N :=
   (mask_from (n_enabled s) 0 (n_ths s),
@@ -324,6 +325,3 @@ Definition nobs_eqb (a b : nobservation) : bool :=
   let '(t2, d2, k2, (v2, w2)) := b in
   list_eqb (prod_eqb N.eqb N.eqb) t1 t2 && list_eqb Nat.eqb d1 d2
   && list_eqb (list_eqb N.eqb) k1 k2 && N.eqb v1 v2 && N.eqb w1 w2.
-
-(* Go's wrap-aware ticket order (runtime/sema.go less): a is before b *)
-Definition less32 (a b : N) : bool := 2147483648 <=? wrap (a + 4294967296 - b).
